@@ -1,6 +1,6 @@
 """C03 - bounded repetition and separated lists honour their bounds and options."""
 import itertools
-from contracts import core, lists
+from contracts import core, lists, spellings
 from pyvc.report import Report
 from pyvc import frag, front
 from pyvc.frag import ex as X, FLAGS
@@ -57,6 +57,7 @@ def run(tier, seed):
                      'combinations: emitted fragments proved against the greedy-bounded / separated-list spec with loop invariants over '
                      'recursive spec functions; surface syntax e{..}, //, /? mapped to the same objects and the same emitted text.')
     run_fragments(rep, [core.ListC(), lists.BoundedListC(), lists.SepC()], tier)
+    run_fragments(rep, [spellings.SpelledSepC()], tier)      # `e // s`, `e /? s`, Sep(e, s, ...) as the real front end builds them
     ground(rep)
     wiring.a_subst_obligations(rep, tier)
     rep.functions.update(['sourcer.expressions.list._check_min_and_max_len', 'sourcer.expressions.sugar.Some',
